@@ -3,7 +3,7 @@
 use crate::case::{Case, Source, Spec};
 use crate::exprgen::{self, ExprOpts, Gen, Ty};
 use crate::rng::Rng;
-use crate::value::{self, GenOpts, V};
+use crate::value::{norm_float, self, GenOpts, V};
 
 pub struct Group {
     pub cases: Vec<Case>,
@@ -65,6 +65,34 @@ fn base_case(id: String) -> Case {
 // ---------------------------------------------------------------------------------- C01
 
 pub fn gen_c01(r: &mut Rng, id: usize, thorough: bool) -> Group {
+    if r.below(40) == 0 {
+        // inputs of tens of KiB made of tokens of many lengths: whatever block size a reader uses, tokens of every kind end up
+        // straddling its block boundaries (numbers with long digit runs, strings with escapes and multi-byte characters, words)
+        let target = r.range(17_000, 40_000);
+        let mut vals: Vec<V> = vec![];
+        let mut size = 0usize;
+        while size < target {
+            let v = match r.below(7) {
+                0 => V::Int((r.next() % 1_000_000_007) as i128 * (r.next() % 1_000_003) as i128),
+                1 => V::Int(-((r.next() >> (r.below(60) as u32)) as i64 as i128).abs()),
+                2 => norm_float((r.next() % 1_000_000_000) as f64 / 1024.0 + 0.5),
+                3 => V::Str("é日\"\\x".repeat(r.below(6))),
+                4 => V::Bool(r.chance(50)),
+                5 => V::Arr((0..r.below(4)).map(|_| V::Int((r.next() % 100_000_000_000) as i128)).collect()),
+                _ => V::Null,
+            };
+            size += value::render(&v).len() + 1;
+            vals.push(v);
+        }
+        let (bytes, _) = stream_of(r, &vals, true);
+        let mut c = base_case(format!("C01-{id}-large"));
+        c.sources.push(stdin_src(bytes));
+        let mut g = Group::new(vec![c]);
+        g.nontrivial = true;
+        g.labels.push("kind:large-input".into());
+        g.values = vals;
+        return g;
+    }
     let o = GenOpts { astral: false, max_depth: if r.chance(10) { 6 } else { 3 }, ..Default::default() };
     let n = if thorough && r.chance(5) { r.range(100, 400) } else { r.range(1, 12) };
     let many_empty = n >= 100;
